@@ -11,7 +11,7 @@ python3 translators/extract_codec_tags.py
 python3 translators/extract_serde_attrs.py
 # the schema translator needs the schema harness built first
 cp /repo/Cargo.lock harness/schema/Cargo.lock 2>/dev/null || true
-(cd harness/schema && CARGO_TARGET_DIR="$V/.build/sch" cargo build --offline --quiet)
+(cd harness/schema && CARGO_TARGET_DIR="$V/.build/sch" cargo build --offline --quiet && CARGO_TARGET_DIR="$V/.build/sch-bv" cargo build --offline --quiet --features bitvec)
 "$V/.build/sch/debug/sch" schema > "$V/.build/schema.json"
 python3 translators/schema_to_lean.py "$V/.build/schema.json"
 (cd lean && lake build SIM driver)
